@@ -440,3 +440,181 @@ Proof.
   - split; [reflexivity|]. split; [lia | reflexivity].
   - lia.
 Qed.
+
+(* ================= (e) src/buint/mod.rs: shifts, rotations, byte / bit reversal ================= *)
+
+(* the digit width is a power of two: `rhs >> BIT_SHIFT` is rhs / w and `rhs & BITS_MINUS_1` is rhs mod w *)
+Lemma tz_pow2 m : u_trailing_zeros 32 (2 ^ Z.of_nat m) = Z.of_nat m.
+Proof.
+  induction m as [|m IH]; [reflexivity|].
+  rewrite Nat2Z.inj_succ, Z.pow_succ_r by lia.
+  assert (Hp : 0 < 2 ^ Z.of_nat m) by (apply Z.pow_pos_nonneg; lia).
+  destruct (2 ^ Z.of_nat m) as [|p|p] eqn:E; try lia.
+  change (2 * Z.pos p) with (Z.pos p~0). cbn [u_trailing_zeros tz_pos] in *. rewrite IH. lia.
+Qed.
+
+Lemma pow2_split w lg rhs : 0 <= lg -> w = 2 ^ lg -> 0 <= rhs ->
+  ix_shr rhs (digit_BIT_SHIFT w) = rhs / w /\ ix_and rhs (digit_BITS_MINUS_1 w) = rhs mod w.
+Proof.
+  intros Hlg -> Hr. unfold ix_shr, ix_and, digit_BIT_SHIFT, digit_BITS_MINUS_1.
+  rewrite <- (Z2Nat.id lg) at 1 by lia. rewrite tz_pow2, Z2Nat.id by lia.
+  split; [apply Z.shiftr_div_pow2; lia|].
+  replace (2 ^ lg - 1) with (Z.ones lg) by (rewrite Z.ones_equiv; lia). apply Z.land_ones; lia.
+Qed.
+
+Lemma shl_bits_scan1 w bs ds c :
+  shl_bits w bs ds c = fst (scan1 (fun d c => (u_or (u_shl w d bs) c, u_shr d (w - bs))) ds c) /\
+  shl_bits_carry w bs ds c = snd (scan1 (fun d c => (u_or (u_shl w d bs) c, u_shr d (w - bs))) ds c).
+Proof.
+  revert c. induction ds as [|d r IH]; intros c; [split; reflexivity|].
+  cbn [shl_bits shl_bits_carry scan1 fst snd]. destruct (IH (u_shr d (w - bs))) as [-> ->]. split; reflexivity.
+Qed.
+
+Lemma shr_bits_scan1 w bs ds c :
+  shr_bits w bs ds c = fst (scan1 (fun d c => (u_or (u_shr d bs) c, u_shl w d (w - bs))) ds c).
+Proof.
+  revert c. induction ds as [|d r IH]; intros c; [reflexivity|].
+  cbn [shr_bits scan1 fst snd]. rewrite IH. reflexivity.
+Qed.
+
+Lemma loops_unchecked_shl_internal w lg n a rhs : 0 <= lg -> w = 2 ^ lg -> wf w n a ->
+  0 <= rhs < bits w n ->
+  forall fuel, (n <= fuel)%nat ->
+  Loops.unchecked_shl_internal w (Z.of_nat n) fuel a rhs = Done (shl_internal w a rhs).
+Proof.
+  intros Hlg Hwl [Ha _] Hr fuel Hf.
+  assert (Hw : 0 < w) by (subst w; apply Z.pow_pos_nonneg; lia).
+  unfold Loops.unchecked_shl_internal, shl_internal. rewrite Nat2Z.id.
+  destruct (pow2_split w lg rhs Hlg Hwl ltac:(lia)) as [-> ->].
+  unfold bits in Hr.
+  assert (Hq : 0 <= rhs / w < Z.of_nat n) by (split; [apply Z.div_pos; lia | apply Z.div_lt_upper_bound; lia]).
+  pose proof (Z.mod_pos_bound rhs w Hw) as Hm.
+  set (ds := Z.to_nat (rhs / w)). assert (Hds : rhs / w = Z.of_nat ds) by (unfold ds; lia).
+  rewrite Hds. set (bs := rhs mod w) in *. rewrite Ha.
+  set (src := firstn (n - ds) a).
+  assert (Hsrc : length src = (n - ds)%nat) by (unfold src; rewrite firstn_length; lia).
+  destruct (bs =? 0) eqn:Ebs; cbn [negb].
+  - (* digit copy *)
+    rewrite (loop_writes0 (fun out (_ : unit) j => (out, Z.of_nat (ds + j))) (fun j => (ds + j)%nat)
+               (fun j c => (nth j src 0, tt)) _ _ (n - ds) n fuel (ZERO n) tt);
+      try first [reflexivity | apply repeat_length | lia | (rewrite Nat.add_0_r; reflexivity)].
+    + rewrite run_writes_up by (unfold ZERO; rewrite repeat_length; lia). cbn [bind fst snd].
+      rewrite <- Hsrc. rewrite (scan_idx_scan1 (fun x (_ : unit) => (x, tt)) src) by (intros; reflexivity).
+      rewrite (scan1_map (fun x => x)). cbn [fst]. rewrite map_id. rewrite Nat.add_0_r.
+      unfold ZERO. rewrite firstn_repeat, skipn_repeat.
+      replace (Nat.min ds n) with ds by lia. replace (n - (ds + length src))%nat with 0%nat by lia.
+      cbn [repeat]. rewrite app_nil_r.
+      rewrite firstn_all2 by (rewrite app_length, repeat_length; lia). reflexivity.
+    + intros out c j Hj. rewrite ltb_of_nat. apply Nat.ltb_lt. lia.
+    + intros out c. rewrite ltb_of_nat. apply Nat.ltb_ge. lia.
+    + intros out c j Hj Hl. body_red. rewrite usub_nat by lia. cbn [bind].
+      rewrite arr_get_nat by lia. cbn [bind]. rewrite arr_set_nat by lia. cbn [bind fst snd].
+      replace (ds + j - ds)%nat with j by lia. unfold src. rewrite nth_firstn_lt by lia.
+      rewrite Nat.add_succ_r, Nat2Z.inj_succ. reflexivity.
+  - (* digit copy with bit shift *)
+    apply Z.eqb_neq in Ebs. rewrite usub_ok by lia. cbn [bind].
+    rewrite (loop_writes0 (fun out c j => (out, c, Z.of_nat (ds + j))) (fun j => (ds + j)%nat)
+               (fun j c => (u_or (u_shl w (nth j src 0) bs) c, u_shr (nth j src 0) (w - bs)))
+               _ _ (n - ds) n fuel (ZERO n) 0);
+      try first [reflexivity | apply repeat_length | lia | (rewrite Nat.add_0_r; reflexivity)].
+    + rewrite run_writes_up by (unfold ZERO; rewrite repeat_length; lia). cbn [bind fst snd].
+      rewrite <- Hsrc.
+      rewrite (scan_idx_scan1 (fun d c => (u_or (u_shl w d bs) c, u_shr d (w - bs))) src) by (intros; reflexivity).
+      destruct (shl_bits_scan1 w bs src 0) as [<- _]. rewrite Nat.add_0_r.
+      unfold ZERO. rewrite firstn_repeat, skipn_repeat.
+      replace (Nat.min ds n) with ds by lia. replace (n - (ds + length src))%nat with 0%nat by lia.
+      cbn [repeat]. rewrite app_nil_r.
+      assert (Hlen : length (shl_bits w bs src 0) = length src).
+      { destruct (shl_bits_scan1 w bs src 0) as [-> _].
+        rewrite <- (scan_idx_scan1 _ src (fun j c => (u_or (u_shl w (nth j src 0) bs) c, u_shr (nth j src 0) (w - bs))) 0%nat)
+          by (intros; reflexivity).
+        apply scan_idx_length. }
+      rewrite firstn_all2 by (rewrite app_length, repeat_length, Hlen; lia). reflexivity.
+    + intros out c j Hj. rewrite ltb_of_nat. apply Nat.ltb_lt. lia.
+    + intros out c. rewrite ltb_of_nat. apply Nat.ltb_ge. lia.
+    + intros out c j Hj Hl. body_red. rewrite usub_nat by lia. cbn [bind].
+      rewrite arr_get_nat by lia. cbn [bind]. rewrite dshl_ok by lia. cbn [bind].
+      rewrite arr_set_nat by lia. cbn [bind]. rewrite dshr_ok by lia. cbn [bind fst snd].
+      replace (ds + j - ds)%nat with j by lia. unfold src. rewrite nth_firstn_lt by lia.
+      rewrite Nat.add_succ_r, Nat2Z.inj_succ. reflexivity.
+Qed.
+
+Lemma set_nth_list_set f l k : (k < length l)%nat -> set_nth k f l = list_set l k (f (nth k l 0)).
+Proof.
+  intros Hk. unfold set_nth. rewrite list_set_split by exact Hk.
+  rewrite (skipn_nth_cons l k) by exact Hk. reflexivity.
+Qed.
+
+Lemma loops_unchecked_shr_pad_internal w lg n neg a rhs : 0 <= lg -> w = 2 ^ lg -> wf w n a ->
+  0 <= rhs < bits w n ->
+  forall fuel, (n <= fuel)%nat ->
+  Loops.unchecked_shr_pad_internal w (Z.of_nat n) fuel neg a rhs = Done (shr_pad_internal w neg a rhs).
+Proof.
+  intros Hlg Hwl [Ha _] Hr fuel Hf.
+  assert (Hw : 0 < w) by (subst w; apply Z.pow_pos_nonneg; lia).
+  unfold Loops.unchecked_shr_pad_internal, shr_pad_internal. rewrite Nat2Z.id.
+  destruct (pow2_split w lg rhs Hlg Hwl ltac:(lia)) as [-> ->].
+  unfold bits in Hr.
+  assert (Hq : 0 <= rhs / w < Z.of_nat n) by (split; [apply Z.div_pos; lia | apply Z.div_lt_upper_bound; lia]).
+  pose proof (Z.mod_pos_bound rhs w Hw) as Hm.
+  set (ds := Z.to_nat (rhs / w)). assert (Hds : rhs / w = Z.of_nat ds) by (unfold ds; lia).
+  rewrite Hds. set (bs := rhs mod w) in *. rewrite Ha.
+  set (pad := if neg then u_max w else 0).
+  assert (Hout0 : (if neg then UMAX w n else ZERO n) = repeat pad n) by (unfold pad; destruct neg; reflexivity).
+  rewrite Hout0.
+  set (src := skipn ds a).
+  assert (Hsrc : length src = (n - ds)%nat) by (unfold src; rewrite skipn_length; lia).
+  destruct (bs =? 0) eqn:Ebs; cbn [negb].
+  - (* digit copy *)
+    rewrite (loop_writes0 (fun out (_ : unit) j => (out, Z.of_nat (ds + j))) (fun j => (0 + j)%nat)
+               (fun j c => (nth j src 0, tt)) _ _ (n - ds) n fuel (repeat pad n) tt);
+      try first [reflexivity | apply repeat_length | lia | (rewrite Nat.add_0_r; reflexivity)].
+    + rewrite run_writes_up by (rewrite repeat_length; lia). cbn [bind fst snd].
+      rewrite <- Hsrc. rewrite (scan_idx_scan1 (fun x (_ : unit) => (x, tt)) src) by (intros; reflexivity).
+      rewrite (scan1_map (fun x => x)). cbn [fst Nat.add firstn app]. rewrite map_id.
+      rewrite skipn_repeat. replace (n - length src)%nat with ds by lia.
+      rewrite firstn_all2 by (rewrite app_length, repeat_length; lia). reflexivity.
+    + intros out c j Hj. rewrite ltb_of_nat. apply Nat.ltb_lt. lia.
+    + intros out c. rewrite ltb_of_nat. apply Nat.ltb_ge. lia.
+    + intros out c j Hj Hl. body_red. rewrite arr_get_nat by lia. cbn [bind].
+      rewrite usub_nat by lia. cbn [bind]. rewrite arr_set_nat by lia. cbn [bind fst snd Nat.add].
+      replace (ds + j - ds)%nat with j by lia. unfold src. rewrite nth_skipn_add.
+      rewrite Nat.add_succ_r, Nat2Z.inj_succ. reflexivity.
+  - (* with bit shift: from the top digit of the window downwards *)
+    apply Z.eqb_neq in Ebs. rewrite usub_ok by lia. cbn [bind].
+    set (g := fun d c => (u_or (u_shr d bs) c, u_shl w d (w - bs))).
+    rewrite (loop_writes0 (fun out c j => (out, c, Z.of_nat (ds + j))) (fun j => (n - ds - 1 - j)%nat)
+               (fun j c => g (nth j (rev src) 0) c) _ _ (n - ds) n fuel (repeat pad n) 0);
+      try first [reflexivity | apply repeat_length | lia | (rewrite Nat.add_0_r; reflexivity)].
+    + rewrite run_writes_down by (try rewrite repeat_length; lia). cbn [bind fst snd].
+      replace (n - ds - 0 - (n - ds))%nat with 0%nat by lia. rewrite Nat.sub_0_r. cbn [firstn app].
+      rewrite skipn_repeat. replace (n - (n - ds))%nat with ds by lia.
+      assert (Hsc : fst (scan_idx (fun j c => g (nth j (rev src) 0) c) 0 (n - ds) 0) = shr_bits w bs (rev src) 0).
+      { rewrite <- Hsrc, <- rev_length. rewrite (scan_idx_scan1 g (rev src)) by (intros; reflexivity).
+        rewrite shr_bits_scan1. reflexivity. }
+      assert (Hlow : length (rev (shr_bits w bs (rev src) 0)) = (n - ds)%nat).
+      { rewrite <- Hsc. rewrite rev_length. apply scan_idx_length. }
+      rewrite Hsc. set (low := rev (shr_bits w bs (rev src) 0)) in *.
+      destruct neg.
+      * rewrite dshl_ok by lia. cbn [bind]. unfold ix_saturating_sub.
+        destruct (Z.ltb_spec (Z.of_nat n) (Z.of_nat ds)) as [?|_]; [lia|].
+        rewrite usub_ok by lia. cbn [bind].
+        replace (Z.of_nat n - Z.of_nat ds - 1) with (Z.of_nat (n - ds - 1)) by lia.
+        rewrite arr_get_nat by (rewrite app_length, repeat_length; lia). cbn [bind].
+        rewrite arr_set_nat by (rewrite app_length, repeat_length; lia). cbn [bind].
+        rewrite app_nth1 by lia. rewrite list_set_app_l by lia.
+        rewrite set_nth_list_set by lia.
+        rewrite firstn_all2 by (rewrite app_length, list_set_length, repeat_length; lia). reflexivity.
+      * rewrite firstn_all2 by (rewrite app_length, repeat_length; lia). reflexivity.
+    + intros out c j Hj. rewrite ltb_of_nat. apply Nat.ltb_lt. lia.
+    + intros out c. rewrite ltb_of_nat. apply Nat.ltb_ge. lia.
+    + intros out c j Hj Hl. body_red. rewrite (usub_ok (Z.of_nat n) 1) by lia. cbn [bind].
+      rewrite usub_ok by lia. cbn [bind].
+      replace (Z.of_nat n - 1 - Z.of_nat (ds + j)) with (Z.of_nat (n - ds - 1 - j)) by lia.
+      rewrite <- Nat2Z.inj_add. rewrite arr_get_nat by lia. cbn [bind].
+      rewrite dshr_ok by lia. cbn [bind]. rewrite arr_set_nat by lia. cbn [bind].
+      rewrite dshl_ok by lia. cbn [bind].
+      rewrite rev_nth by lia. rewrite Hsrc. unfold src. rewrite !nth_skipn_add.
+      replace (ds + (n - ds - S j))%nat with (n - ds - 1 - j + ds)%nat by lia.
+      unfold g. cbn [fst snd]. rewrite Nat.add_succ_r, Nat2Z.inj_succ. reflexivity.
+Qed.
